@@ -11,6 +11,7 @@
   * `type_order_irrelevant` : the `types` object is a map: documents whose type definitions are the same up to order have
                               the same digest (all six mutually recursive encoders depend on the type set only through
                               lookups and its size: `encoders_same`).
+  * `unreferenced_irrelevant`: a definition nothing refers to does not change the digest (with `closure_fuel_sufficient`).
   PARTIAL: equality with Spec.Eip712.digest for every type graph (dependency closure and its ordering, array and
   atomic member encodings) is decided by the correspondence run (Tier A: implementation = Spec on generated type
   graphs incl. cycles, shared and unreferenced types), not proved; signature shape / recovery are C05's theorems.
